@@ -7,6 +7,11 @@
 (* another to the base state, must itself be a valid change for the base      *)
 (* state, never hit an invalid combination, and must not depend on how the    *)
 (* merging is bracketed (layers are merged in several steps in db19).         *)
+(* Buffers are mathematical values here, so "the merge leaves its inputs      *)
+(* unchanged" holds by construction; that clause is decided on the storage     *)
+(* level (chunks = views into shared backing arrays, inputs still held by      *)
+(* older snapshots) in IxBufStore.tla: InputsUnchanged, deviation              *)
+(* DevAdoptChunk.                                                              *)
 EXTENDS IxBufOps
 
 CONSTANTS K, Offs, MaxOps, MaxBufs,
